@@ -41,6 +41,7 @@ plan('C16',
          Job(H, 'socket_frag', 'asan', quick=1200, thorough=20000, shards=(8, 16)),
      ],
      assumptions=COMMON_ASSUME + [
+         'an Array<String> is an array of "these": a fifth of the String items are written as an Array<String> of 1-4 pieces whose bytes must be the pieces\' characters one after the other (read back as the same text); the StreamBuffer self-append histories also write runs of the buffer\'s own bytes with write(ptr, n) and << across growth boundaries',
          'host is x86-64 (little endian): NATIVE and LITTLE take the not-swapped paths, BIG the swapped ones; the host order is measured at run time by the harness, independently of ASL_BIGENDIAN',
          'the initial byte order is always set explicitly (constructor argument or setEndian); the classes\' defaults are not judged',
          'asl has no array or (for StreamBufferReader) string extraction: arrays are read back element by element with operator>>(T&), strings with '
